@@ -7,7 +7,7 @@ import json, os, re, shutil, subprocess, sys, time
 
 SRC = os.environ.get("SEEDED_SRC", "/tmp/seedout")
 ROOT = "/verif"
-EXTRA = {"C02-C": ["C16", "C10"], "C03-C": ["C16", "C10"], "C05-D": ["C16", "C10"], "C10-C": ["C16"], "C11-D": ["C16", "C10"], "C06-C": ["C17"], "C13-C": ["C17"], "C14-C": ["C17"],
+EXTRA = {"C01-C": ["C07"], "C02-C": ["C16", "C10"], "C03-C": ["C16", "C10"], "C05-D": ["C16", "C10"], "C10-C": ["C16"], "C11-D": ["C16", "C10"], "C06-C": ["C17"], "C13-C": ["C17"], "C14-C": ["C17"],
          "C20-C": ["C17"], "C12-D": ["C17"], "C07-D": ["C17"], "C01-D": ["C17", "C07"], "C10-D": ["C17"], "C08-C": ["C18"], "C18-D": ["C08"], "C16-C": ["C17"], "C19-C": ["C02"], "C09-D": ["C03"], "C05-C": ["C11"],
          "C02-B": ["C16"], "C05-B": ["C16"], "C07-B": ["C17"], "C13-B": ["C17"], "C03-B": ["C10"], "C10-A": ["C03"], "C16-B": ["C05"], "C08-B": ["C03", "C04"], "C01-B": ["C06"], "C06-B": ["C01"]}
 
